@@ -32,6 +32,9 @@ extern "C" void h_container() {
 #if FIELDS & 2
         { uint16_t method = vp_u16("container.compressionMethod"); memcpy(img + c2 + 16, &method, 2); }
 #endif
+#if FIELDS & 8
+        { uint32_t ot = vp_u32("container.objectType"); memcpy(img + c2 + 12, &ot, 4); }
+#endif
 #if FIELDS & 4
         { uint32_t usz = vp_u32("container.uncompressedFileSize"); memcpy(img + c2 + 24, &usz, 4); }
 #endif
